@@ -161,6 +161,9 @@ func checkC02(r *evid.Run) {
 
 // injectC02 injects 0..2 malformations of the statement's classes at random positions.
 func injectC02(rng *rand.Rand, doc [][]string) [][]string {
+	if rng.Intn(4) == 0 {
+		return injectJumpAfterDedent(rng, doc) // a level jump right after a dedent (an earlier path went that deep)
+	}
 	n := rng.Intn(3)
 	out := append([][]string{}, doc...)
 	for i := 0; i < n; i++ {
